@@ -564,7 +564,7 @@ Lemma bl_free_eff v lr s keep l b :
       let b' := mkBlock (bk_id b) (bk_mem b) s3 mt' in
       get_blist v' lr = Some (incrementally_sort (set_blocks l (free_decide l (replace_block (bl_blocks l) b') b'
                                   (has_empty_block (bl_blocks l)) budgetEx keep)))
-  | ER _ => exists l', get_blist v' lr = Some l' /\ lp l l'
+  | ER _ => exists s2, get_blist v' lr = Some (set_blocks l (replace_block (bl_blocks l) (mkBlock (bk_id b) (bk_mem b) s2 (bk_meta b))))
   | _ => True
   end.
 Proof.
@@ -578,8 +578,7 @@ Proof.
   assert (Hg2 : get_blist v2 lr = Some (set_blocks l (replace_block (bl_blocks l) (mkBlock (bk_id b) (bk_mem b) s2 (bk_meta b))))).
   { unfold v2, put_block. rewrite get_blist_set_m, Hg. eapply get_set_blist_same. rewrite get_blist_set_m. exact Hg. }
   destruct ur as [[]|code| |]; try (split; [exact Et2|split; [exact Ho2|exact I]]).
-  2:{ split; [exact Et2|]. split; [exact Ho2|]. eexists. split; [exact Hg2|]. unfold lp, ids. cbn. rewrite replace_block_ids.
-      split; [apply Permutation_refl|split; [reflexivity|apply cfg_eq_set_blocks]]. }
+  2:{ split; [exact Et2|]. split; [exact Ho2|]. exists s2. exact Hg2. }
   destruct (meta_free (bk_meta b) (a_handle (get_alloc v s))) as [mt'|code| |] eqn:Efree; try (split; [exact Et2|split; [exact Ho2|exact I]]).
   destruct (sm_sub (v_m v2) (bk_mem b) s2) as (m3 & s3).
   set (b' := mkBlock (bk_id b) (bk_mem b) s3 mt'). set (bs3 := replace_block (bl_blocks l) b').
@@ -908,8 +907,9 @@ Proof.
     + rewrite Hg, Hg'. unfold orel. eapply lp_trans; [|apply lp_sort]. unfold lp, ids. cbn. rewrite replace_block_ids.
       split; [apply Permutation_refl|split; [reflexivity|apply cfg_eq_set_blocks]].
     + rewrite (Eo lr0 Hne). unfold orel. destruct (get_blist v lr0); [apply lp_refl|exact I].
-  - destruct Er as (l' & Hg' & P). intros lr0. destruct (lref_eq_dec lr0 lr) as [->|Hne].
-    + rewrite Hg, Hg'. exact P.
+  - destruct Er as (s2 & Hg'). intros lr0. destruct (lref_eq_dec lr0 lr) as [->|Hne].
+    + rewrite Hg, Hg'. unfold orel, lp, ids. cbn. rewrite replace_block_ids.
+      split; [apply Permutation_refl|split; [reflexivity|apply cfg_eq_set_blocks]].
     + rewrite (Eo lr0 Hne). unfold orel. destruct (get_blist v lr0); [apply lp_refl|exact I].
 Qed.
 
@@ -987,6 +987,191 @@ Proof.
       { intros _. apply R6. unfold l1. cbn [bl_blocks set_blocks bl_min]. lia. }
       destruct R7 as [R7|R7]; [left; exact R7|right]. intros b0 Hb0 [E|Hin] Hge; [|apply R7; auto].
       exfalso. destruct (proj1 (Hrm b0) (R3 _ Hb0)) as (_ & Hn). congruence.
+Qed.
+
+(* ---------------------------------------------------------------- memoryBlockList.Allocate keeps both policies *)
+
+Lemma nodup_incl_perm (a b : list Z) : NoDup a -> NoDup b -> incl a b -> incl b a -> Permutation a b.
+Proof. intros Ha Hb H1 H2. apply NoDup_Permutation; auto. intros x. split; auto. Qed.
+
+Lemma bl_allocate_L (Hc : cfg_ok c) v U X lr slots size align0 flags sub :
+  VamInvU c v U X -> LInv v -> align0 = 0 \/ Bits.pow2 align0 -> NoDup slots -> dead_slots v slots ->
+  let '(v', r) := bl_allocate c v lr slots size align0 flags sub in
+  match r with OK _ | ER _ => LInv v' | _ => True end.
+Proof.
+  intros HI HL Hal Hnd Hdead.
+  pose proof (bl_allocate_inv c Hc v U X lr slots size align0 flags sub HI Hal Hnd Hdead) as P.
+  unfold bl_allocate in *. destruct (get_blist v lr) as [l|] eqn:Hg; [|exact I].
+  pose proof (vi_lists _ _ _ _ HI _ _ Hg) as Hwf.
+  assert (Hal' : Bits.pow2 (if align0 <? bl_minalign l then bl_minalign l else align0)).
+  { pose proof (bw_align _ _ Hwf) as Hm. pose proof (Bits.pow2_pos _ Hm). destruct (align0 <? bl_minalign l) eqn:E; [auto|].
+    destruct Hal as [->|H']; [apply Z.ltb_ge in E; lia|auto]. }
+  assert (Hnd0 : NoDup (slots ++ [])) by (rewrite app_nil_r; auto).
+  assert (Hbs0 : block_slots v lr X []) by (split; [constructor|intros ? []]).
+  pose proof (allocate_loop_inv c Hc slots v U X lr [] size _ flags sub HI Hal' Hnd0 Hdead Hbs0) as AL.
+  pose proof (allocate_loop_L Hc slots v U X lr [] size _ flags sub HI HL Hal' Hnd Hdead) as LL.
+  pose proof (allocate_loop_ids Hc slots v U X lr l [] size _ flags sub HI Hal' Hnd Hdead Hg) as IL.
+  destruct (allocate_loop c v lr slots [] size _ flags sub) as ((v1 & r) & done).
+  destruct r as [[]|code| |]; try exact I; [exact LL|].
+  destruct AL as (K1 & B1 & _ & Q1 & O1). destruct IL as (Io1 & l1 & Hg1 & G1).
+  pose proof (unwind_loop_inv c done v1 U X lr (proj1 K1) B1) as UW.
+  pose proof (unwind_loop_lperm done v1 lr) as UP.
+  destruct (unwind_loop c v1 lr done) as (v2 & ur). destruct ur as [[]|ucode| |]; try exact I; [|contradiction].
+  destruct UW as (K2 & D2). destruct (lperm_get _ _ _ _ UP Hg1) as (l2 & Hg2 & P12).
+  pose proof (vi_lists _ _ _ _ (proj1 K2) _ _ Hg2) as Hwf2.
+  unfold release_empty_since in *. rewrite Hg2 in *.
+  pose proof (release_loop_inv c (map bk_id (rev (bl_blocks l2))) v2 U X lr (bl_next l) (proj1 K2)) as RE.
+  pose proof (release_loop_eff (map bk_id (rev (bl_blocks l2))) v2 lr l2 (bl_next l) Hg2 (bw_nodup _ _ Hwf2)) as RL.
+  destruct (release_loop c v2 lr (map bk_id (rev (bl_blocks l2))) (bl_next l)) as (v3 & rr). destruct rr as [[]|rcode| |]; try exact I; [|contradiction].
+  destruct RL as (T3 & Ro & l3 & Hg3 & (R1 & R2 & R3 & R4 & R5 & R6 & R7)). destruct RE as (I3 & T23 & _).
+  (* the table: outside the caller's objects nothing changed, and those are unallocated before and after *)
+  assert (Hsub : forall s, In s done -> In s slots) by (intros s Hs; specialize (Q1 s Hs); rewrite app_nil_r in Q1; auto).
+  assert (T03 : tab_frame v v3 slots).
+  { eapply tab_frame_trans_same; [apply K1|]. eapply tab_frame_trans_same; [eapply tab_frame_weaken; [apply K2|exact Hsub]|].
+    eapply tab_frame_weaken; [exact T23|intros ? []]. }
+  assert (HdS : forall s, In s slots -> a_allocated (get_alloc v s) = false) by (intros s Hs; apply Hdead; exact Hs).
+  intros lr0 l0' Hg0'. destruct (lref_eq_dec lr0 lr) as [->|Hne].
+  2:{ eapply (LInv_other v U X v3 U X slots); eauto.
+      eapply orel_lp_trans; [apply Io1; exact Hne|]. eapply orel_lp_trans; [apply UP|]. rewrite (Ro lr0 Hne).
+      unfold orel. destruct (get_blist v2 lr0); [apply lp_refl|exact I]. }
+  assert (l0' = l3) by congruence. subst l0'.
+  destruct (HL _ _ Hg) as (HLB & HRB). destruct (LL _ _ Hg1) as (HLB1 & _).
+  destruct G1 as (C01 & N01 & In01 & New01). destruct P12 as (Pm12 & N12 & C12).
+  assert (Ecfg : cfg_eq l l3) by (eapply cfg_eq_trans; [exact C01|]; eapply cfg_eq_trans; [exact C12|exact R1]).
+  destruct Ecfg as (Ety & Epf & Emin & Emax & Eex & Eal).
+  assert (Ez12 : zlen (bl_blocks l2) = zlen (bl_blocks l1)).
+  { pose proof (zlen_perm _ _ Pm12) as H. unfold ids, zlen in *. rewrite !map_length in H. exact H. }
+  destruct C01 as (_ & _ & Emin1 & Emax1 & _). destruct C12 as (_ & _ & Emin2 & Emax2 & _).
+  assert (Hlen3 : zlen (bl_blocks l3) <= zlen (bl_blocks l2)).
+  { assert (Hincl : incl (ids l3) (ids l2)) by (intros i Hi; unfold ids in *; apply in_map_iff in Hi; destruct Hi as (b & <- & Hb); apply in_map; apply R3; exact Hb).
+    pose proof (NoDup_incl_length R5 Hincl) as H. unfold ids, zlen in *. rewrite !map_length in H. lia. }
+  assert (HLB3 : LB l3).
+  { unfold LB in *. rewrite Emin, Emax. split; [|lia]. rewrite <- Emin. rewrite Emin in *.
+    assert (bl_min l2 <= zlen (bl_blocks l2)) by (rewrite Emin2, Emin1, Ez12; lia).
+    specialize (R6 H). lia. }
+  split; [exact HLB3|].
+  (* the blocks of the list are used exactly as before the call *)
+  assert (Huse : forall i, blk_used v3 X lr i = blk_used v X lr i).
+  { intros i. destruct (blk_used v X lr i) eqn:E.
+    - eapply used_frame; eauto.
+    - destruct (blk_used v3 X lr i) eqn:E3; [|reflexivity]. exfalso.
+      apply blk_used_spec in E3. destruct E3 as (s & a & Sa & HX & K & L & B).
+      assert (Hns : ~ In s slots).
+      { intros Hin. assert (Hd3 : a_allocated (get_alloc v3 s) = false).
+        { destruct (in_dec Z.eq_dec s done) as [Hd|Hnd'].
+          - rewrite (get_alloc_frame _ _ _ _ T23) by (intros []). apply D2. exact Hd.
+          - destruct (O1 s Hin) as [H|(_ & Hd1)]; [contradiction|].
+            rewrite (get_alloc_frame _ _ _ _ T23) by (intros []).
+            rewrite (get_alloc_frame _ _ _ _ (proj1 (proj2 K2))) by exact Hnd'. exact Hd1. }
+        rewrite (get_alloc_slot _ _ _ Sa) in Hd3. destruct Sa. congruence. }
+      assert (Sa0 : slot_is v s a) by (apply (slot_is_frame _ _ _ _ _ T03); auto).
+      assert (blk_used v X lr i = true) by (apply blk_used_spec; exists s, a; auto). congruence. }
+  unfold RB. rewrite Emin.
+  destruct R7 as [R7|R7].
+  { pose proof (cnt_empty_bounds (bl_blocks l3)). lia. }
+  (* no block made by this call is left: the ids are those of before *)
+  assert (Hold3 : forall b, In b (bl_blocks l3) -> bk_id b < bl_next l).
+  { intros b Hb. destruct (Z.lt_ge_cases (bk_id b) (bl_next l)) as [H|H]; [exact H|exfalso].
+    assert (Hin2 : In (bk_id b) (map bk_id (rev (bl_blocks l2)))) by (apply in_map; apply in_rev; rewrite rev_involutive; apply R3; exact Hb).
+    specialize (R7 b Hb Hin2 H).
+    rewrite (empty_iff_unused v3 U X lr l3 b I3 Hg3 Hb), Huse in R7.
+    apply negb_false_iff in R7. apply blk_used_spec in R7. destruct R7 as (s & a & Sa & HX & K & L & B).
+    destruct (vi_slots _ _ _ _ HI s a Sa HX) as [(_ & l' & b' & rg & G' & B' & I' & _)|(K2' & _)]; [|congruence].
+    rewrite L in G'. assert (l' = l) by congruence. subst l'.
+    pose proof (bw_ids _ _ Hwf) as Hids. rewrite Forall_forall in Hids. specialize (Hids b' B'). lia. }
+  assert (Pm03 : Permutation (ids l3) (ids l)).
+  { apply nodup_incl_perm; [exact R5|apply (bw_nodup _ _ Hwf)| |].
+    - intros i Hi. unfold ids in Hi. apply in_map_iff in Hi. destruct Hi as (b & <- & Hb).
+      assert (Hi2 : In (bk_id b) (ids l2)) by (apply in_map; apply R3; exact Hb).
+      apply (Permutation_in _ Pm12) in Hi2. destruct (New01 _ Hi2) as [H|H]; [exact H|]. specialize (Hold3 b Hb). lia.
+    - intros i Hi. pose proof (In01 i Hi) as Hi1. apply (Permutation_in _ (Permutation_sym Pm12)) in Hi1.
+      unfold ids in Hi1. apply in_map_iff in Hi1. destruct Hi1 as (b & <- & Hb).
+      apply in_map. apply R4; [exact Hb|]. left.
+      pose proof (bw_ids _ _ Hwf) as Hids. rewrite Forall_forall in Hids.
+      unfold ids in Hi. apply in_map_iff in Hi. destruct Hi as (b0 & E0 & Hb0). specialize (Hids b0 Hb0). lia. }
+  rewrite (cnt_empty_used v3 U X lr l3 I3 Hg3). unfold RB in HRB. rewrite (cnt_empty_used v U X lr l HI Hg) in HRB.
+  pose proof (filter_len_perm_le (fun i => negb (blk_used v X lr i)) (fun i => negb (blk_used v3 X lr i)) (ids l) (ids l3) Pm03) as H.
+  assert (Hp : forall i, In i (ids l) -> negb (blk_used v3 X lr i) = true -> negb (blk_used v X lr i) = true) by (intros i _; rewrite Huse; auto).
+  specialize (H Hp). lia.
+Qed.
+
+(* ---------------------------------------------------------------- free keeps both policies *)
+
+Lemma bl_free_L v U X s a :
+  VamInvU c v U X -> LInv v -> slot_is v s a -> ~ In s X -> a_kind a = 1 ->
+  let '(v', r) := bl_free c v (a_lref a) s false in
+  match r with OK _ | ER _ => LInv v' | _ => True end.
+Proof.
+  intros HI HL Sa HX Ka.
+  destruct (vi_slots _ _ _ _ HI s a Sa HX) as [(_ & l & b & rg & Hg & Hb & Hid & Hrg & _)|(K & _)]; [|congruence].
+  pose proof (vi_lists _ _ _ _ HI _ _ Hg) as Hwf. pose proof (bw_nodup _ _ Hwf) as Hnd.
+  pose proof (bw_meta _ _ Hwf) as Hmeta. rewrite Forall_forall in Hmeta.
+  assert (Hgb : get_block v (a_lref a) (a_blk (get_alloc v s)) = Some b).
+  { rewrite (get_alloc_slot _ _ _ Sa). unfold get_block. rewrite Hg, <- Hid. apply in_find_block; auto. }
+  assert (Hne : emp b = false).
+  { unfold emp. destruct (meta_bookkeeping _ (Hmeta _ Hb)) as (_ & _ & He). destruct (meta_is_empty (bk_meta b)) eqn:E; [|reflexivity].
+    rewrite (proj1 He eq_refl) in Hrg. destruct Hrg. }
+  pose proof (bl_free_eff v (a_lref a) s false l b Hg Hgb) as E.
+  destruct (bl_free c v (a_lref a) s false) as (v' & r). destruct E as (_ & Eo & Er).
+  destruct (HL _ _ Hg) as (HLB & HRB).
+  assert (Hfin : forall l', get_blist v' (a_lref a) = Some l' -> LB l' /\ RB l' -> LInv v').
+  { intros l' Hg' Hp lr0 l0 Hg0. destruct (lref_eq_dec lr0 (a_lref a)) as [->|Hn]; [assert (l0 = l') by congruence; subst; exact Hp|].
+    rewrite (Eo lr0 Hn) in Hg0. exact (HL _ _ Hg0). }
+  destruct r as [[]|code| |]; try exact I.
+  - destruct Er as (mt' & s3 & be & _ & Hg'). cbn zeta in Hg'. eapply Hfin; [exact Hg'|].
+    set (nb := mkBlock (bk_id b) (bk_mem b) s3 mt') in *.
+    destruct (free_decide_policies l (bl_blocks l) b nb be Hnd Hb Hne eq_refl HLB HRB) as (P1 & P2).
+    set (bs4 := free_decide l (replace_block (bl_blocks l) nb) nb (has_empty_block (bl_blocks l)) be false) in *.
+    assert (Pm : Permutation (bl_blocks (set_blocks l bs4)) (bl_blocks (incrementally_sort (set_blocks l bs4)))).
+    { unfold incrementally_sort. destruct (_ || _); [apply Permutation_refl|]. cbn. apply bubble_once_perm. }
+    assert (Ecf : bl_min (incrementally_sort (set_blocks l bs4)) = bl_min l /\ bl_max (incrementally_sort (set_blocks l bs4)) = bl_max l).
+    { unfold incrementally_sort. destruct (_ || _); cbn; auto. }
+    destruct Ecf as (E1 & E2). unfold LB, RB. rewrite E1, E2, <- (zlen_perm _ _ Pm), (cnt_empty_perm _ _ Pm). cbn [bl_blocks set_blocks]. auto.
+  - destruct Er as (s2 & Hg'). eapply Hfin; [exact Hg'|].
+    destruct (cnt_replace (bl_blocks l) b (mkBlock (bk_id b) (bk_mem b) s2 (bk_meta b)) Hnd Hb eq_refl) as (C1 & Z1).
+    unfold LB, RB in *. cbn [bl_blocks set_blocks bl_min bl_max]. rewrite C1, Z1. unfold emp at 2. cbn [bk_meta]. fold (emp b). split; [auto|]. destruct (emp b); lia.
+Qed.
+
+(* Destroy: a list without blocks *)
+Lemma bl_destroy_lists v lr :
+  let '(v', r) := bl_destroy c v lr in
+  match r with
+  | OK _ => (forall lr0, lr0 <> lr -> get_blist v' lr0 = get_blist v lr0) /\
+            forall l, get_blist v lr = Some l -> get_blist v' lr = Some (set_blocks l [])
+  | _ => True
+  end.
+Proof.
+  unfold bl_destroy. destruct (get_blist v lr) as [l|] eqn:Hg; [|exact I]. destruct (existsb _ _); [exact I|].
+  destruct (destroy_blocks_machine c (bl_blocks l) v (bl_type l)) as (m' & Em).
+  destruct (destroy_blocks c v (bl_type l) (bl_blocks l)) as (v1 & r1). cbn [fst] in Em. subst v1.
+  destruct r1 as [[]|code| |]; try exact I. rewrite get_blist_set_m, Hg. split.
+  - intros lr0 Hn. rewrite get_set_blist_other by congruence. apply get_blist_set_m.
+  - intros l0 E. injection E as <-. eapply get_set_blist_same. rewrite get_blist_set_m. exact Hg.
+Qed.
+
+(* CreateMinBlocks: n blocks more, or an error *)
+Lemma create_min_blocks_eff n : forall v lr l size,
+  get_blist v lr = Some l ->
+  let '(v', r) := create_min_blocks c n v lr size in
+  v_tab v' = v_tab v /\ (forall lr0, lr0 <> lr -> orel lp (get_blist v lr0) (get_blist v' lr0)) /\
+  exists l', get_blist v' lr = Some l' /\ cfg_eq l l' /\
+    match r with OK _ => zlen (bl_blocks l') = zlen (bl_blocks l) + Z.of_nat n | _ => True end.
+Proof.
+  induction n as [|k IH]; intros v lr l size Hg; cbn [create_min_blocks].
+  - split; [reflexivity|]. split; [intros lr0 _; unfold orel; destruct (get_blist v lr0); [apply lp_refl|exact I]|].
+    exists l. split; [exact Hg|]. split; [apply cfg_eq_refl|lia].
+  - pose proof (create_block_eff v lr l size Hg) as CB. destruct (create_block c v lr size) as (v1 & r1). destruct CB as (T1 & CB).
+    destruct r1 as [bid|code| |].
+    + destruct CB as (_ & (Go & Gl)). destruct (lch_get _ _ _ _ _ (conj Go Gl) Hg) as (l1 & Hg1 & (P1 & N1 & C1)).
+      specialize (IH v1 lr l1 size Hg1). destruct (create_min_blocks c k v1 lr size) as (v2 & r2).
+      destruct IH as (T2 & Io & l2 & Hg2 & C2 & Z2). split; [congruence|].
+      split; [intros lr0 Hn; eapply orel_lp_trans; [apply Go; exact Hn|apply Io; exact Hn]|].
+      exists l2. split; [exact Hg2|]. split; [eapply cfg_eq_trans; eauto|].
+      destruct r2 as [[]|c2| |]; auto. rewrite Z2.
+      pose proof (zlen_perm _ _ P1) as H. unfold ids, zlen in *. cbn [length] in H. rewrite !map_length in H. lia.
+    + split; [exact T1|]. split; [intros; apply CB|]. destruct (lperm_get _ _ _ _ CB Hg) as (l1 & Hg1 & (_ & _ & C1)). exists l1. auto.
+    + split; [exact T1|]. split; [intros; apply CB|]. destruct (lperm_get _ _ _ _ CB Hg) as (l1 & Hg1 & (_ & _ & C1)). exists l1. auto.
+    + split; [exact T1|]. split; [intros; apply CB|]. destruct (lperm_get _ _ _ _ CB Hg) as (l1 & Hg1 & (_ & _ & C1)). exists l1. auto.
 Qed.
 
 End WithCfg.
